@@ -3,6 +3,7 @@
 from __future__ import annotations
 
 import ast
+import re
 
 from sa.cfg import CFG, no_exc
 from sa.guards import FactFlow
@@ -655,3 +656,67 @@ def collection_shapes(check: Check, repo: Repo, rule: str = "UNTRUSTED-ATTR") ->
              f"isinstance tests on `nodes`: {sorted(handled)}" if not missing else
              f"located_error passes a {sorted(missing)} of nodes through, but __init__ wraps everything that is not a list as a single node: "
              "`.loc` is then read from the collection itself (AttributeError out of execution)")
+
+
+def str_conversions(check: Check, repo: Repo, rule: str = "STR-TOTAL") -> None:
+    from rules.write_effect import top_heads
+    from sa.mtypes import MTypes
+
+    check.rule(
+        rule,
+        "two places where a value taken from the variables mapping is turned into text while an error message "
+        "is being built: (1) inspect() - repr() of an int can raise ValueError (CPython refuses to convert ints "
+        "of more than 4300 digits), so the int arm of inspect_recursive converts inside a handler for ValueError; "
+        "(2) suggestion_list(<name>, ...) lower-cases its first argument, so every call passes a value that is a "
+        "str by type (mypy: builtins.str, e.g. the value of a NameNode) or under a dominating "
+        "isinstance(<name>, str) test - the keys of a dict given as an input object value are arbitrary",
+    )
+    fn = repo.func("pyutils.inspect", "inspect_recursive")
+    reprs = []
+    for i in walk_body(fn):
+        if isinstance(i, ast.If) and "int" in {x.id for x in ast.walk(i.test) if isinstance(x, ast.Name)} and "isinstance" in unparse(i.test):
+            reprs += [c for s_ in i.body for c in ast.walk(s_) if isinstance(c, ast.Call) and call_name(c) in ("repr", "str")]
+    if not reprs:
+        raise AnalysisError("inspect_recursive: int arm not found")
+    for c in reprs:
+        t = covered_by_try(c, {"ValueError", "Exception", "BaseException"})
+        check.ob(rule, c, f"inspect_recursive: {unparse(c)} of an int", t is not None,
+                 f"inside try/except ValueError (line {t.lineno})" if t is not None else "repr() of a huge int raises ValueError and nothing catches it")
+    mt = MTypes.get(repo)
+    flows: dict[ast.AST, FactFlow] = {}
+    n = 0
+    for mod in repo.modules.values():
+        for c in ast.walk(mod.tree):
+            if not (isinstance(c, ast.Call) and call_name(c) == "suggestion_list" and c.args):
+                continue
+            a = c.args[0]
+            ty = mt.type_of(a)
+            heads = top_heads(ty) if ty else set()
+            ok, why = heads == {"builtins.str"}, f"typed {ty}"
+            if ok and isinstance(a, ast.Name):
+                # the declared type of a re-used loop variable says nothing about this binding: when the
+                # name is bound by an enclosing `for <name>, ... in <iter>` take the key type of <iter>
+                loop = next((x for x in ancestors(c) if isinstance(x, ast.For)
+                             and a.id in {n.id for n in ast.walk(x.target) if isinstance(n, ast.Name)}), None)
+                if loop is not None:
+                    ity = mt.type_of(loop.iter) or "Any"
+                    if "Any" in re.split(r"[\[\], |]+", ity):
+                        ok, why = False, f"bound from `{unparse(loop.iter)}` ({ity})"
+                        ty = ity
+            if not ok and isinstance(a, ast.Name):
+                f = enclosing_function(c)
+                if f is not None and not isinstance(f, ast.Lambda):
+                    if f not in flows:
+                        flows[f] = FactFlow(CFG(f))
+                    for fact in flows[f].facts_at(c):
+                        if fact.kind == "cond" and fact.pol and unparse(fact.expr) == f"isinstance({a.id}, str)":
+                            ok, why = True, f"dominated by isinstance({a.id}, str)"
+                    # parameter annotated str
+                    ann = {p.arg: unparse(p.annotation) for p in f.args.args if p.annotation is not None}
+                    if ann.get(a.id) == "str":
+                        ok, why = True, "parameter annotated str"
+            n += 1
+            check.ob(rule, c, f"{qualname_of(c)}: suggestion_list({unparse(a)}, ...)", ok,
+                     why if ok else f"`{unparse(a)}` is not known to be a str here ({ty or 'Any'}): a non-string key reaches .lower()")
+    if n < 5:
+        raise AnalysisError("STR-TOTAL: suggestion_list call sites not found")
